@@ -1,0 +1,318 @@
+//go:build verif
+
+// Contracts for the contract-based deductive verification in /verif (govc).
+// Comment-only: nothing in this file is compiled into the package.
+package seat_manager
+
+// a seat whose player can be dealt in
+//@ pred PLAYABLE(s) = s.IsActive && !s.IsReserved && s.Player != nil
+// a seat with a sitting (non-reserved) player, active or not
+//@ pred OCCUPIED(s) = !s.IsReserved && s.Player != nil
+
+//@ pred DIST(d, j, n) = ite(j >= d, j - d, j + n - d)
+//@ pred ROT(d, k, n) = ite(d + k < n, d + k, d + k - n)
+
+//@ pred SEATOK(sm, s) = s == nil || (0 <= s.ID && s.ID < sm.max && sm.seats[s.ID] == s)
+
+//@ pred WFSM(sm) = sm != nil && sm.seats != nil && sm.max >= 0
+//@    && (forall i :: 0 <= i && i < sm.max ==> in(i, sm.seats) && sm.seats[i] != nil && sm.seats[i].ID == i)
+//@    && (forall i, j :: 0 <= i && i < j && j < sm.max ==> sm.seats[i] != sm.seats[j])
+//@    && (forall k :: in(k, sm.seats) ==> 0 <= k && k < sm.max)
+//@    && SEATOK(sm, sm.dealer) && SEATOK(sm, sm.sb) && SEATOK(sm, sm.bb)
+
+// number of playable / occupied seats among seat ids 0..k-1
+//@ fun CNT(sm *SeatManager, k int) int = ite(k <= 0, 0, CNT(sm, k - 1) + ite(PLAYABLE(sm.seats[k - 1]), 1, 0))
+//@ fun CNE(sm *SeatManager, k int) int = ite(k <= 0, 0, CNE(sm, k - 1) + ite(OCCUPIED(sm.seats[k - 1]), 1, 0))
+
+//@ lemma CNT_range(sm *SeatManager, k int) for CNT induction k : 0 <= CNT(sm, k) && CNT(sm, k) <= ite(k < 0, 0, k)
+//@ lemma CNT_zero(sm *SeatManager, k int) for CNT induction k : CNT(sm, k) == 0 ==> (forall i :: 0 <= i && i < k ==> !PLAYABLE(sm.seats[i]))
+//@ lemma CNT_one(sm *SeatManager, k int) for CNT induction k : CNT(sm, k) >= 1 ==> (exists i :: 0 <= i && i < k && PLAYABLE(sm.seats[i]))
+//@ lemma CNT_two(sm *SeatManager, k int) for CNT induction k : CNT(sm, k) >= 2 ==>
+//@      (exists i, j :: 0 <= i && i < j && j < k && PLAYABLE(sm.seats[i]) && PLAYABLE(sm.seats[j]))
+//@ lemma CNT_three(sm *SeatManager, k int) for CNT induction k : CNT(sm, k) >= 3 ==>
+//@      (exists i, j, l :: 0 <= i && i < j && j < l && l < k && PLAYABLE(sm.seats[i]) && PLAYABLE(sm.seats[j]) && PLAYABLE(sm.seats[l]))
+//@ lemma CNT_ge1(sm *SeatManager, k int) for CNT induction k : (forall i :: 0 <= i && i < k && PLAYABLE(sm.seats[i]) ==> CNT(sm, k) >= 1)
+//@ lemma CNT_ge2(sm *SeatManager, k int) for CNT induction k :
+//@      (forall i, j :: 0 <= i && i < j && j < k && PLAYABLE(sm.seats[i]) && PLAYABLE(sm.seats[j]) ==> CNT(sm, k) >= 2)
+//@ lemma CNT_ge3(sm *SeatManager, k int) for CNT induction k :
+//@      (forall i, j, l :: 0 <= i && i < j && j < l && l < k && PLAYABLE(sm.seats[i]) && PLAYABLE(sm.seats[j]) && PLAYABLE(sm.seats[l]) ==> CNT(sm, k) >= 3)
+// two-state: activating seats never lowers the count; equal playability on [0,k) gives equal counts
+//@ lemma CNT_mono(sm *SeatManager, k int) for CNT induction k :
+//@      (forall i :: 0 <= i && i < k ==> sm.seats[i] == old(sm.seats[i]) && (old(PLAYABLE(sm.seats[i])) ==> PLAYABLE(sm.seats[i])))
+//@      ==> CNT(sm, k) >= old(CNT(sm, k))
+//@ lemma CNT_same(sm *SeatManager, k int) for CNT induction k :
+//@      (forall i :: 0 <= i && i < k ==> sm.seats[i] == old(sm.seats[i]) && (old(PLAYABLE(sm.seats[i])) <==> PLAYABLE(sm.seats[i])))
+//@      ==> CNT(sm, k) == old(CNT(sm, k))
+
+//@ lemma CNE_range(sm *SeatManager, k int) for CNE induction k : 0 <= CNE(sm, k) && CNE(sm, k) <= ite(k < 0, 0, k)
+//@ lemma CNE_one(sm *SeatManager, k int) for CNE induction k : CNE(sm, k) >= 1 ==> (exists i :: 0 <= i && i < k && OCCUPIED(sm.seats[i]))
+//@ lemma CNE_ge1(sm *SeatManager, k int) for CNE induction k : (forall i :: 0 <= i && i < k && OCCUPIED(sm.seats[i]) ==> CNE(sm, k) >= 1)
+//@ lemma CNE_two(sm *SeatManager, k int) for CNE induction k : CNE(sm, k) >= 2 ==>
+//@      (exists i, j :: 0 <= i && i < j && j < k && OCCUPIED(sm.seats[i]) && OCCUPIED(sm.seats[j]))
+//@ lemma CNE_le1(sm *SeatManager, k int) for CNE induction k :
+//@      (forall i, j :: 0 <= i && i < j && j < k && OCCUPIED(sm.seats[i]) && OCCUPIED(sm.seats[j]) ==> CNE(sm, k) >= 2)
+
+// ---------------------------------------------------------------------------
+// helpers
+// ---------------------------------------------------------------------------
+
+//@ func (*SeatManager).getSeat(sm, id) (res)
+//@   props C18
+//@   requires WFSM(sm)
+//@   modifies nothing
+//@   ensures (0 <= id && id < sm.max) ==> res == sm.seats[id] && res != nil
+//@   ensures !(0 <= id && id < sm.max) ==> res == nil
+
+//@ func (*SeatManager).getNormalizeSeats(sm, startID) (res)
+//@   props C08 C17 C18
+//@   requires WFSM(sm) && 0 <= startID && (startID < sm.max || (sm.max == 0 && startID == 0))
+//@   modifies nothing
+//@   allocs elems(*Seat)
+//@   ensures len(res) == sm.max
+//@   ensures forall k :: 0 <= k && k < sm.max ==> res[k] == sm.seats[ROT(startID, k, sm.max)]
+//@   ensures forall j :: 0 <= j && j < sm.max ==> res[DIST(startID, j, sm.max)] == sm.seats[j]
+//@   loop 1 invariant 0 <= i && i <= sm.max && len(seats) == i && 0 <= cur && (cur < sm.max || sm.max == 0)
+//@   loop 1 invariant (i < sm.max ==> DIST(startID, cur, sm.max) == i) && (i == sm.max ==> cur == startID)
+//@   loop 1 invariant forall k :: 0 <= k && k < i ==> seats[k] == sm.seats[ROT(startID, k, sm.max)]
+//@   loop 1 invariant forall j :: 0 <= j && j < sm.max && DIST(startID, j, sm.max) < i ==> seats[DIST(startID, j, sm.max)] == sm.seats[j]
+
+//@ func (*SeatManager).findActivePlayer(sm, seats) (res, idx)
+//@   props C08 C17 C18
+//@   requires forall k :: 0 <= k && k < len(seats) ==> seats[k] != nil
+//@   modifies nothing
+//@   ensures res != nil ==> 0 <= idx && idx < len(seats) && res == seats[idx] && PLAYABLE(res)
+//@             && (forall k :: 0 <= k && k < idx ==> !PLAYABLE(seats[k]))
+//@   ensures res == nil ==> idx == 0 - 1 && (forall k :: 0 <= k && k < len(seats) ==> !PLAYABLE(seats[k]))
+//@   loop 1 invariant forall k :: 0 <= k && k <= rangeindex ==> !PLAYABLE(seats[k])
+
+//@ func (*SeatManager).getPlayableSeatCount(sm) (res)
+//@   props C08 C17 C18
+//@   requires WFSM(sm)
+//@   modifies nothing
+//@   ensures res == CNT(sm, sm.max)
+//@   loop 1 invariant 0 <= i && i <= sm.max && count == CNT(sm, i)
+
+//@ func (*SeatManager).getNonEmptySeatCount(sm) (res)
+//@   props C17 C18
+//@   requires WFSM(sm)
+//@   modifies nothing
+//@   ensures res == CNE(sm, sm.max)
+//@   loop 1 invariant 0 <= i && i <= sm.max && count == CNE(sm, i)
+
+//@ func (*SeatManager).getPlayableSeat(sm) (res)
+//@   props C17 C18
+//@   requires WFSM(sm)
+//@   modifies nothing
+//@   ensures res != nil ==> PLAYABLE(res) && 0 <= res.ID && res.ID < sm.max && sm.seats[res.ID] == res
+//@   ensures res == nil ==> (forall k :: 0 <= k && k < sm.max ==> !PLAYABLE(sm.seats[k]))
+//@   loop 1 invariant 0 <= i && i <= sm.max && (forall k :: 0 <= k && k < i ==> !PLAYABLE(sm.seats[k]))
+
+// ---------------------------------------------------------------------------
+// moving the button (C17) and assigning the blinds (C08)
+// ---------------------------------------------------------------------------
+
+//@ func (*SeatManager).nextDealer(sm) (res)
+//@   props C17 C08 C18
+//@   requires WFSM(sm)
+//@   modifies sm.dealer, Seat.IsActive
+//@   allocs elems(*Seat)
+//@   ensures WFSM(sm)
+//@   ensures res != nil ==> res == sm.dealer && PLAYABLE(res)
+//@   ensures forall s *Seat :: old(s.IsActive) ==> s.IsActive
+//@   ensures [C17] res == nil ==> CNT(sm, sm.max) <= 1
+//@   ensures [C17] old(CNT(sm, sm.max)) >= 2 && old(sm.dealer) != nil ==> res != nil && res != old(sm.dealer) && old(PLAYABLE(res))
+//@   ensures [C17] old(CNT(sm, sm.max)) >= 2 && old(sm.dealer) != nil ==>
+//@             (forall j :: 0 <= j && j < sm.max && j != old(sm.dealer.ID) && old(PLAYABLE(sm.seats[j]))
+//@                ==> DIST(old(sm.dealer.ID), res.ID, sm.max) <= DIST(old(sm.dealer.ID), j, sm.max))
+//@   ensures [C17] old(CNT(sm, sm.max)) >= 2 && old(sm.dealer) == nil ==> res != nil && old(PLAYABLE(res))
+//@             && (forall j :: 0 <= j && j < res.ID ==> !old(PLAYABLE(sm.seats[j])))
+//@   assert findActivePlayer:1 len(seats) == ite(sm.dealer == nil, sm.max, sm.max - 1)
+//@   assert findActivePlayer:1 sm.dealer != nil ==> (forall j :: 0 <= j && j < sm.max && j != sm.dealer.ID ==> seats[DIST(sm.dealer.ID, j, sm.max) - 1] == sm.seats[j])
+//@   assert findActivePlayer:1 sm.dealer == nil ==> (forall j :: 0 <= j && j < sm.max ==> seats[j] == sm.seats[j])
+//@   loop 1 invariant forall s *Seat :: old(s.IsActive) ==> s.IsActive
+//@   loop 2 invariant forall s *Seat :: old(s.IsActive) ==> s.IsActive
+//@   loop 3 invariant forall s *Seat :: old(s.IsActive) ==> s.IsActive
+
+// clockwise distance of seat id j from the dealer seat
+//@ pred DD(sm, j) = DIST(sm.dealer.ID, j, sm.max)
+// what renewSeatStatus may do to a seat's active flag: nothing is activated below the big blind,
+// and only empty seats are ever deactivated
+//@ pred DEACTEMPTY() = forall s *Seat :: old(s.IsActive) && !s.IsActive ==> s.Player == nil
+
+//@ func (*SeatManager).renewSeatStatus(sm) (err)
+//@   props C08 C18
+//@   requires WFSM(sm) && sm.dealer != nil && PLAYABLE(sm.dealer) && CNT(sm, sm.max) >= 2
+//@   modifies sm.sb, sm.bb, Seat.IsActive
+//@   allocs elems(*Seat)
+//@   ensures err == nil && WFSM(sm)
+//@   ensures [C08] sm.sb != nil && sm.bb != nil && PLAYABLE(sm.dealer) && PLAYABLE(sm.sb) && PLAYABLE(sm.bb)
+//@   ensures [C08] old(CNT(sm, sm.max)) == 2 ==> sm.sb == sm.dealer && sm.bb != sm.dealer
+//@   ensures [C08] old(CNT(sm, sm.max)) != 2 ==> sm.sb != sm.dealer && sm.bb != sm.dealer && sm.bb != sm.sb
+//@   ensures [C08] DD(sm, sm.sb.ID) < DD(sm, sm.bb.ID)
+//@   -- clockwise from the dealer up to the big blind, the small blind is the only seat that can play
+//@   ensures [C08] forall j :: 0 <= j && j < sm.max && 0 < DD(sm, j) && DD(sm, j) < DD(sm, sm.bb.ID) && sm.seats[j] != sm.sb ==> !PLAYABLE(sm.seats[j])
+//@   ensures DEACTEMPTY()
+//@   ensures forall j :: 0 <= j && j < sm.max && DD(sm, j) <= DD(sm, sm.bb.ID) ==> (sm.seats[j].IsActive ==> old(sm.seats[j].IsActive))
+//@   ensures CNT(sm, sm.max) >= old(CNT(sm, sm.max))
+//@   assert findActivePlayer:1 len(seats) == sm.max - 1
+//@   assert findActivePlayer:1 forall j :: 0 <= j && j < sm.max && j != sm.dealer.ID ==> seats[DD(sm, j) - 1] == sm.seats[j]
+//@   assert findActivePlayer:1 result != nil
+//@   assert findActivePlayer:2 sm.sb != nil && PLAYABLE(sm.sb) && 0 <= sm.sb.ID && sm.sb.ID < sm.max && sm.seats[sm.sb.ID] == sm.sb
+//@   assert findActivePlayer:2 len(seats) == sm.max - DD(sm, sm.sb.ID) - 1
+//@   assert findActivePlayer:2 forall j :: 0 <= j && j < sm.max && DD(sm, j) > DD(sm, sm.sb.ID) ==> seats[DD(sm, j) - DD(sm, sm.sb.ID) - 1] == sm.seats[j]
+//@   assert findActivePlayer:2 forall j :: 0 <= j && j < sm.max && 0 < DD(sm, j) && DD(sm, j) < DD(sm, sm.sb.ID) ==> !PLAYABLE(sm.seats[j])
+//@   assert findActivePlayer:2 result != nil
+//@   loop 1 invariant DEACTEMPTY() && (forall s *Seat :: s.IsActive ==> old(s.IsActive))
+//@   loop 2 invariant DEACTEMPTY()
+//@   loop 2 invariant len(seats) == sm.max - DD(sm, sm.bb.ID) - 1
+//@   loop 2 invariant forall k :: 0 <= k && k < len(seats) ==> seats[k] == sm.seats[ROT(sm.dealer.ID, DD(sm, sm.bb.ID) + 1 + k, sm.max)]
+//@   loop 2 invariant forall j :: 0 <= j && j < sm.max && DD(sm, j) <= DD(sm, sm.bb.ID) ==> (sm.seats[j].IsActive ==> old(sm.seats[j].IsActive))
+
+//@ func (*SeatManager).Next(sm) (err)
+//@   props C08 C17 C18
+//@   requires WFSM(sm)
+//@   modifies sm.dealer, sm.sb, sm.bb, Seat.IsActive
+//@   allocs elems(*Seat)
+//@   ensures WFSM(sm)
+//@   ensures [C17 C18] err == nil || err == ErrInsufficientNumberOfPlayers
+//@   -- the move is refused only when, even after waiting players have been let in, fewer than two can play
+//@   ensures [C17] err != nil ==> CNT(sm, sm.max) <= 1
+//@   ensures [C17] err == nil ==> CNT(sm, sm.max) >= 2
+//@   ensures [C17] old(CNT(sm, sm.max)) >= 2 ==> err == nil
+//@   -- the button goes to the first player clockwise from the previous dealer who could play: it moves, never backwards, never past one
+//@   ensures [C17] old(CNT(sm, sm.max)) >= 2 && old(sm.dealer) != nil ==> sm.dealer != nil && sm.dealer != old(sm.dealer)
+//@             && (forall s *Seat :: s == sm.dealer ==> old(PLAYABLE(s)))
+//@             && (forall j :: 0 <= j && j < sm.max && j != old(sm.dealer.ID) && old(PLAYABLE(sm.seats[j]))
+//@                   ==> DIST(old(sm.dealer.ID), sm.dealer.ID, sm.max) <= DIST(old(sm.dealer.ID), j, sm.max))
+//@   ensures [C17] old(CNT(sm, sm.max)) >= 2 && old(sm.dealer) == nil ==> sm.dealer != nil
+//@             && (forall s *Seat :: s == sm.dealer ==> old(PLAYABLE(s)))
+//@             && (forall j :: 0 <= j && j < sm.dealer.ID ==> !old(PLAYABLE(sm.seats[j])))
+//@   -- dealer, small blind and big blind sit on seats that can play, in the right order
+//@   ensures [C08] err == nil ==> sm.dealer != nil && sm.sb != nil && sm.bb != nil && PLAYABLE(sm.dealer) && PLAYABLE(sm.sb) && PLAYABLE(sm.bb)
+//@   ensures [C08] err == nil && CNT(sm, sm.max) == 2 ==> sm.sb == sm.dealer && sm.bb != sm.dealer
+//@   ensures [C08] err == nil ==> DD(sm, sm.sb.ID) < DD(sm, sm.bb.ID)
+//@             && (forall j :: 0 <= j && j < sm.max && 0 < DD(sm, j) && DD(sm, j) < DD(sm, sm.bb.ID) && sm.seats[j] != sm.sb ==> !PLAYABLE(sm.seats[j]))
+//@   ensures [C08] err == nil && sm.sb != sm.dealer ==> sm.bb != sm.dealer && sm.bb != sm.sb && CNT(sm, sm.max) >= 3
+
+// ---------------------------------------------------------------------------
+// joining, leaving, sitting in (C18)
+// ---------------------------------------------------------------------------
+
+// number of seats holding a player among seat ids 0..k-1
+//@ fun CNP(sm *SeatManager, k int) int = ite(k <= 0, 0, CNP(sm, k - 1) + ite(sm.seats[k - 1].Player != nil, 1, 0))
+//@ lemma CNP_zero(sm *SeatManager, k int) for CNP induction k : (forall i :: 0 <= i && i < k ==> sm.seats[i].Player == nil) ==> CNP(sm, k) == 0
+//@ lemma CNP_same(sm *SeatManager, k int) for CNP induction k :
+//@      (forall i :: 0 <= i && i < k ==> sm.seats[i] == old(sm.seats[i]) && ((old(sm.seats[i].Player) != nil) <==> (sm.seats[i].Player != nil)))
+//@      ==> CNP(sm, k) == old(CNP(sm, k))
+//@ lemma CNP_inc(sm *SeatManager, k int) for CNP induction k :
+//@      forall x :: 0 <= x && (forall i :: 0 <= i && i < k ==> sm.seats[i] == old(sm.seats[i])
+//@                     && (i != x ==> ((old(sm.seats[i].Player) != nil) <==> (sm.seats[i].Player != nil))))
+//@                  && (x < k ==> old(sm.seats[x].Player) == nil && sm.seats[x].Player != nil)
+//@      ==> CNP(sm, k) == old(CNP(sm, k)) + ite(x < k, 1, 0)
+//@ lemma CNP_dec(sm *SeatManager, k int) for CNP induction k :
+//@      forall x :: 0 <= x && (forall i :: 0 <= i && i < k ==> sm.seats[i] == old(sm.seats[i])
+//@                     && (i != x ==> ((old(sm.seats[i].Player) != nil) <==> (sm.seats[i].Player != nil))))
+//@                  && (x < k ==> old(sm.seats[x].Player) != nil && sm.seats[x].Player == nil)
+//@      ==> CNP(sm, k) == old(CNP(sm, k)) - ite(x < k, 1, 0)
+
+// a seat that "join any seat" may hand out
+//@ pred FREE(s) = !s.IsReserved && s.Player == nil
+
+//@ func (*SeatManager).join(sm, seatID, p) (res, err)
+//@   props C18
+//@   requires WFSM(sm) && 0 <= seatID && seatID < sm.max && p != nil
+//@   modifies sm.seats[seatID].IsReserved, sm.seats[seatID].Player
+//@   ensures old(sm.seats[seatID].Player) != nil ==> err == ErrNotAvailable && res == 0 - 1
+//@             && sm.seats[seatID].Player == old(sm.seats[seatID].Player) && sm.seats[seatID].IsReserved == old(sm.seats[seatID].IsReserved)
+//@   ensures old(sm.seats[seatID].Player) == nil ==> err == nil && res == seatID && sm.seats[seatID].Player == p && sm.seats[seatID].IsReserved
+
+//@ func (*SeatManager).leave(sm, seatID) (err)
+//@   props C18
+//@   requires WFSM(sm)
+//@   modifies Seat.IsReserved, Seat.Player
+//@   ensures [C18] !(0 <= seatID && seatID < sm.max) ==> err != nil && unchanged(Seat.IsReserved) && unchanged(Seat.Player)
+//@   ensures [C18] 0 <= seatID && seatID < sm.max && old(sm.seats[seatID].Player) == nil ==> err == ErrEmptySeat && unchanged(Seat.IsReserved) && unchanged(Seat.Player)
+//@   ensures [C18] 0 <= seatID && seatID < sm.max && old(sm.seats[seatID].Player) != nil ==> err == nil
+//@             && sm.seats[seatID].Player == nil && !sm.seats[seatID].IsReserved
+//@             && (forall s *Seat :: s != sm.seats[seatID] ==> s.Player == old(s.Player) && s.IsReserved == old(s.IsReserved))
+
+//@ func (*SeatManager).getAvailableSeats(sm) (act, alt)
+//@   props C18
+//@   requires WFSM(sm)
+//@   modifies nothing
+//@   allocs elems(int)
+//@   ensures forall k :: 0 <= k && k < len(act) ==> 0 <= act[k] && act[k] < sm.max && FREE(sm.seats[act[k]])
+//@   ensures forall k :: 0 <= k && k < len(alt) ==> 0 <= alt[k] && alt[k] < sm.max && FREE(sm.seats[alt[k]])
+//@   ensures len(act) == 0 && len(alt) == 0 ==> (forall i :: 0 <= i && i < sm.max ==> !FREE(sm.seats[i]))
+//@   loop 1 invariant forall k :: 0 <= k && k < len(seats) ==> 0 <= seats[k] && seats[k] < sm.max && FREE(sm.seats[seats[k]])
+//@   loop 1 invariant forall k :: 0 <= k && k < len(alternateSeats) ==> 0 <= alternateSeats[k] && alternateSeats[k] < sm.max && FREE(sm.seats[alternateSeats[k]])
+//@   loop 1 invariant len(seats) == 0 && len(alternateSeats) == 0 ==> (forall i :: seen(i) ==> !FREE(sm.seats[i]))
+
+//@ func (*SeatManager).Join(sm, seatID, p) (res, err)
+//@   props C18
+//@   requires WFSM(sm) && p != nil
+//@   modifies Seat.IsReserved, Seat.Player
+//@   allocs elems(int)
+//@   ensures WFSM(sm)
+//@   ensures [C18] seatID >= sm.max || seatID < 0 - 1 ==> err == ErrInvalidSeat && res == 0 - 1 && unchanged(Seat.IsReserved) && unchanged(Seat.Player)
+//@   ensures [C18] 0 <= seatID && seatID < sm.max && old(sm.seats[seatID].Player) != nil
+//@             ==> err == ErrNotAvailable && res == 0 - 1 && unchanged(Seat.IsReserved) && unchanged(Seat.Player)
+//@   ensures [C18] 0 <= seatID && seatID < sm.max && old(sm.seats[seatID].Player) == nil ==> err == nil && res == seatID
+//@   ensures [C18] seatID == 0 - 1 ==> err == nil || err == ErrNoAvailableSeat
+//@   ensures [C18] seatID == 0 - 1 && err == ErrNoAvailableSeat ==> (forall i :: 0 <= i && i < sm.max ==> !old(FREE(sm.seats[i])))
+//@             && unchanged(Seat.IsReserved) && unchanged(Seat.Player)
+//@   ensures [C18] seatID == 0 - 1 && err == nil ==> 0 <= res && res < sm.max && old(FREE(sm.seats[res]))
+//@   -- a successful join puts exactly this player on exactly that seat, held out of play until they sit in
+//@   ensures [C18] err == nil ==> 0 <= res && res < sm.max && old(sm.seats[res].Player) == nil && sm.seats[res].Player == p
+//@             && sm.seats[res].IsReserved && !PLAYABLE(sm.seats[res])
+//@             && (forall s *Seat :: s != sm.seats[res] ==> s.Player == old(s.Player) && s.IsReserved == old(s.IsReserved))
+//@   ensures [C18] err != nil ==> res == 0 - 1
+//@   ensures [C18] CNP(sm, sm.max) == old(CNP(sm, sm.max)) + ite(err == nil, 1, 0)
+
+//@ func (*SeatManager).Leave(sm, seatID) (err)
+//@   props C18
+//@   requires WFSM(sm)
+//@   modifies Seat.IsReserved, Seat.Player
+//@   ensures WFSM(sm)
+//@   ensures [C18] !(0 <= seatID && seatID < sm.max) ==> err != nil && unchanged(Seat.IsReserved) && unchanged(Seat.Player)
+//@   ensures [C18] 0 <= seatID && seatID < sm.max && old(sm.seats[seatID].Player) == nil ==> err == ErrEmptySeat && unchanged(Seat.IsReserved) && unchanged(Seat.Player)
+//@   ensures [C18] 0 <= seatID && seatID < sm.max && old(sm.seats[seatID].Player) != nil ==> err == nil
+//@             && sm.seats[seatID].Player == nil && !sm.seats[seatID].IsReserved
+//@             && (forall s *Seat :: s != sm.seats[seatID] ==> s.Player == old(s.Player) && s.IsReserved == old(s.IsReserved))
+//@   ensures [C18] CNP(sm, sm.max) == old(CNP(sm, sm.max)) - ite(err == nil, 1, 0)
+
+//@ func (*SeatManager).Seat(sm, seatID) (err)
+//@   props C18
+//@   requires WFSM(sm)
+//@   modifies Seat.IsReserved
+//@   ensures WFSM(sm)
+//@   ensures [C18] !(0 <= seatID && seatID < sm.max) ==> err == ErrNotFoundSeat && unchanged(Seat.IsReserved)
+//@   ensures [C18] 0 <= seatID && seatID < sm.max ==> err == nil && !sm.seats[seatID].IsReserved
+//@             && (forall s *Seat :: s != sm.seats[seatID] ==> s.IsReserved == old(s.IsReserved))
+
+//@ func (*SeatManager).Reserve(sm, seatID) (err)
+//@   props C18
+//@   requires WFSM(sm)
+//@   modifies Seat.IsReserved
+//@   ensures WFSM(sm)
+//@   ensures [C18] !(0 <= seatID && seatID < sm.max) ==> err == ErrNotFoundSeat && unchanged(Seat.IsReserved)
+//@   ensures [C18] 0 <= seatID && seatID < sm.max ==> err == nil && sm.seats[seatID].IsReserved
+//@             && (forall s *Seat :: s != sm.seats[seatID] ==> s.IsReserved == old(s.IsReserved))
+
+//@ func NewSeatManager(max) (sm)
+//@   props C18
+//@   requires max >= 0
+//@   modifies nothing
+//@   allocs SeatManager, Seat, map(map[int]*Seat)
+//@   ensures WFSM(sm) && sm.max == max && sm.dealer == nil && sm.sb == nil && sm.bb == nil
+//@   ensures forall i :: 0 <= i && i < max ==> sm.seats[i].Player == nil && sm.seats[i].IsActive && !sm.seats[i].IsReserved
+//@   ensures CNP(sm, max) == 0
+
+//@ func (*SeatManager).Reset(sm)
+//@   inline
+//@   loop 1 invariant 0 <= i && i <= sm.max && sm.seats != nil
+//@   loop 1 invariant forall k :: 0 <= k && k < i ==> in(k, sm.seats) && sm.seats[k] != nil && sm.seats[k].ID == k && fresh(sm.seats[k])
+//@             && sm.seats[k].Player == nil && sm.seats[k].IsActive && !sm.seats[k].IsReserved
+//@   loop 1 invariant forall k, l :: 0 <= k && k < l && l < i ==> sm.seats[k] != sm.seats[l]
+//@   loop 1 invariant forall k :: in(k, sm.seats) ==> 0 <= k && k < i
+//@   loop 1 invariant sm.dealer == nil && sm.sb == nil && sm.bb == nil
